@@ -736,9 +736,23 @@ class MRef(Monitor):
         super().__init__()
         self.expect = scenario.get("expect") or {}
         self.seen = set()
+        # executions whose names the engine invents (raw start events): the terminal outputs as a multiset
+        self.expect_outputs = scenario.get("expect_outputs")
+        self.outputs = []
+    def at_quiescence(self, w):
+        if self.expect_outputs is not None:
+            got = sorted(json.dumps(o, sort_keys=True) for o in self.outputs)
+            want = sorted(json.dumps(o, sort_keys=True) for o in self.expect_outputs)
+            if got != want:
+                self.flag(w, "wrong_result", "terminal outputs %s; reference %s" % (got, want), None, None, first="outputs", second="outputs")
     def on_note(self, w, note):
         d = (note["body"] or {}).get("detail") or {}
         arn, st = d.get("executionArn"), d.get("status")
+        if self.expect_outputs is not None and st in TERMINAL:
+            try:
+                self.outputs.append(json.loads(d.get("output")) if st == "SUCCEEDED" else {"status": st, "error": d.get("error")})
+            except Exception:
+                self.outputs.append({"unparseable": d.get("output")})
         if st not in TERMINAL or arn not in self.expect or arn in self.seen:
             return
         self.seen.add(arn)
@@ -759,7 +773,7 @@ class MRef(Monitor):
                 st, d.get("output"), d.get("error"), ex.get("status"), ex.get("output"), ex.get("errors") or ex.get("error")), arn,
                 None, first=ex.get("status"), second=st)
     def state(self):
-        return sorted(self.seen)
+        return [sorted(self.seen), sorted(json.dumps(o, sort_keys=True) for o in self.outputs)]
 
 class MJoin(Monitor):
     """C05: join completeness / position / exactly-once iterations / MaxConcurrency bound."""
